@@ -7,7 +7,7 @@ ID = 'C19'
 COQ_TARGETS = ['Props/Properties_C19.vo']
 PROPS_FILES = ['Props/Properties_C19.v']
 SHRINK_FROM = 2
-THEOREMS = ['C19_tx', 'C19_tx_exact', 'C19_tx_checker', 'C19_tx_unrepaired_refuted', 'C19_rx_content', 'C19_rx_fail', 'C19_rx_unrepaired_refuted', 'C19_rx_readbin']
+THEOREMS = ['C19_tx', 'C19_tx_exact', 'C19_tx_checker', 'C19_tx_unrepaired_refuted', 'C19_rx_content', 'C19_rx_fail', 'C19_rx_unrepaired_refuted', 'C19_rx_parse', 'C19_rx_transactions', 'C19_rx_checker', 'C19_rxs_checker', 'C19_rx_readbin']
 ENGINES = [dict(name='bdat', c_sources=['bdat_h.c', 'bdat_rx.c', 'bdat_net.c'], extract='Extract/Extract_bdat.v', driver='bdat_driver.ml',
                 accepts=lambda c: c[:3] in ('aa ', 'bb ', 'bd '))]
 RULE = ('tx cases = (chunk size, message[, number of positive intermediate replies]) for the real send_bdat: every message of <= 5 '
